@@ -21,6 +21,7 @@ import (
 	"github.com/ozontech/file.d/metric"
 	"github.com/ozontech/file.d/pipeline"
 	_ "github.com/ozontech/file.d/plugin/output/elasticsearch"
+	_ "github.com/ozontech/file.d/plugin/output/file"
 	_ "github.com/ozontech/file.d/plugin/output/gelf"
 	_ "github.com/ozontech/file.d/plugin/output/http"
 	_ "github.com/ozontech/file.d/plugin/output/kafka"
@@ -34,6 +35,7 @@ import (
 	"verif/simrt/simfasthttp"
 	"verif/simrt/simkgo"
 	"verif/simrt/simnet"
+	"verif/simrt/simos"
 )
 
 func init() { core.Register(&H{}) }
@@ -66,6 +68,7 @@ type Cfg struct {
 	Retry     int           `json:"retry"`
 	Copy      bool          `json:"copy_fields,omitempty"` // splunk: copy svc to fields.svc of the envelope
 	Reconnect time.Duration `json:"reconnect,omitempty"`   // gelf: reconnect_interval
+	Retention time.Duration `json:"retention,omitempty"`   // file: retention_interval (the file is sealed and a new one started)
 	Events    []Ev          `json:"events"`
 }
 
@@ -82,12 +85,17 @@ var nasty = []string{"plain", "", "with \"quotes\"", "back\\slash", "new\nline",
 func (h *H) Gen(rng *rand.Rand, tier, prop string) core.Cfg {
 	c := &Cfg{}
 	c.Sim = simrt.Config{PSwitch: core.Pick(rng, 0.02, 0.1, 0.3), StepCost: time.Microsecond, MaxSteps: 1_500_000, Horizon: time.Hour, Faults: map[string]float64{}}
-	c.Sink = core.Pick(rng, "es", "es", "http", "splunk", "kafka", "loki", "gelf")
+	c.Sink = core.Pick(rng, "es", "es", "http", "splunk", "kafka", "loki", "gelf", "file")
 	c.BatchSize = core.Between(rng, 1, 8)
 	c.Workers = core.Pick(rng, 1, 1, 2, 3)
 	c.Flush = core.DurBetween(rng, 10*time.Millisecond, 300*time.Millisecond)
 	c.Retry = core.Pick(rng, 0, 2, 5)
-	c.Gzip = c.Sink != "kafka" && c.Sink != "gelf" && core.Chance(rng, 0.2)
+	c.Gzip = c.Sink != "kafka" && c.Sink != "gelf" && c.Sink != "file" && core.Chance(rng, 0.2)
+	if c.Sink == "file" {
+		c.Retention = core.Pick(rng, 100*time.Millisecond, 300*time.Millisecond, time.Second, 3*time.Second, time.Hour)
+		// an empty file past its seal time makes the plugin's ticker loop without pause (see DESIGN.md): keep such loops cheap in steps
+		c.Sim.StepCost = 50 * time.Microsecond
+	}
 	if c.Sink == "gelf" {
 		c.Reconnect = core.Pick(rng, 50*time.Millisecond, time.Second, time.Minute)
 	}
@@ -98,7 +106,7 @@ func (h *H) Gen(rng *rand.Rand, tier, prop string) core.Cfg {
 			c.Limit413 = core.Between(rng, 60, 600)
 		}
 	}
-	if core.Chance(rng, 0.3) {
+	if c.Sink != "file" && core.Chance(rng, 0.3) {
 		c.Sim.Faults["sink.status5xx"] = core.Pick(rng, 0.05, 0.2)
 		c.Sim.Faults["sink.transport"] = 0.05
 		if c.Sink == "gelf" {
@@ -682,6 +690,28 @@ func (r *run) gelfChunk(conn int, chunk []byte, cut bool) {
 	}
 }
 
+// fileContent checks one file written by the file output: complete lines, one event each.
+func (r *run) fileContent(name string, b []byte) {
+	r.requests++
+	req := r.requests
+	if len(b) > 0 && b[len(b)-1] != '\n' {
+		r.viol("file-ends-in-mid-line", "file %s does not end with a newline: %q", name, trunc(b))
+	}
+	lines := bytes.Split(b, []byte("\n"))
+	if len(lines) > 0 && len(lines[len(lines)-1]) == 0 {
+		lines = lines[:len(lines)-1]
+	}
+	for i, ln := range lines {
+		where := fmt.Sprintf("file %s line #%d", name, i)
+		doc, err := norm(ln)
+		if err != nil {
+			r.viol("document-not-json", "%s is not valid JSON (%v): %q", where, err, trunc(ln))
+			continue
+		}
+		r.checkDoc(doc, req, i, true, where)
+	}
+}
+
 func trunc(b []byte) string {
 	if len(b) > 300 {
 		return string(b[:300]) + "..."
@@ -708,6 +738,7 @@ func (h *H) Run(cc core.Cfg, sim *simrt.Sim) *core.Outcome {
 		seq++
 		name := fmt.Sprintf("h9_%d", seq)
 		simfasthttp.Install(r.endpoint)
+		fsys := simos.NewFS()
 		netSrv = &simnet.Server{OnData: func(id int, b []byte, cut bool) { r.gelfChunk(id, b, cut) }}
 		simnet.Install(netSrv)
 		broker = simkgo.NewBroker()
@@ -745,7 +776,7 @@ func (h *H) Run(cc core.Cfg, sim *simrt.Sim) *core.Outcome {
 			}
 			return nil
 		}
-		typ := map[string]string{"es": "elasticsearch", "http": "http", "splunk": "splunk", "kafka": "kafka", "loki": "loki", "gelf": "gelf"}[cfg.Sink]
+		typ := map[string]string{"es": "elasticsearch", "http": "http", "splunk": "splunk", "kafka": "kafka", "loki": "loki", "gelf": "gelf", "file": "file"}[cfg.Sink]
 		static, err := fd.DefaultPluginRegistry.Get(pipeline.PluginKindOutput, typ)
 		if err != nil {
 			panic(err)
@@ -771,6 +802,8 @@ func (h *H) Run(cc core.Cfg, sim *simrt.Sim) *core.Outcome {
 			js = fmt.Sprintf(`{"address":"http://loki:3100","labels":[{"label":"app","value":"fd"}],"message_field":"f0","timestamp_field":"ts","connection_timeout":"1s",%s}`, common)
 		case "gelf":
 			js = fmt.Sprintf(`{"endpoint":"graylog:12201","reconnect_interval":%q,"connection_timeout":"1s","write_timeout":"1s","host_field":"host","short_message_field":"f0","default_short_message_value":"none","full_message_field":"f1","timestamp_field":"time","level_field":"level",%s}`, cfg.Reconnect.String(), common)
+		case "file":
+			js = fmt.Sprintf(`{"target_file":"/out/logs/app.log","retention_interval":%q,"workers_count":"%d","batch_size":"%d","batch_flush_timeout":%q}`, cfg.Retention.String(), cfg.Workers, cfg.BatchSize, cfg.Flush.String())
 		case "kafka":
 			js = fmt.Sprintf(`{"brokers":["sim:9092"],"default_topic":"logs","use_topic_field":true,"topic_field":"svc",%s}`, common)
 		}
@@ -805,7 +838,20 @@ func (h *H) Run(cc core.Cfg, sim *simrt.Sim) *core.Outcome {
 		for simrt.SimNow() < deadline && len(r.commits) < len(cfg.Events) {
 			simrt.Sleep(100 * time.Millisecond)
 		}
-		simrt.Sleep(time.Second)
+		if cfg.Sink == "file" {
+			// what the plugin left on the disk: the current file and the sealed ones
+			simrt.Sleep(5 * time.Millisecond)
+			ents, err := simos.ReadDir("/out/logs")
+			if err != nil {
+				r.viol("target-dir-missing", "cannot list /out/logs: %v", err)
+			}
+			for _, ent := range ents {
+				b, _ := fsys.ReadDirect("/out/logs/" + ent.Name())
+				r.fileContent(ent.Name(), b)
+			}
+		} else {
+			simrt.Sleep(time.Second)
+		}
 		verdict = true
 		simrt.Stop("done")
 	})
@@ -861,6 +907,13 @@ func (h *H) Run(cc core.Cfg, sim *simrt.Sim) *core.Outcome {
 	}
 	o.NonTrivial["C19"] = r.requests > 0 && len(cfg.Events) > 1
 	o.Probes["413-answers"] += r.had413
+	o.Probes["sink."+cfg.Sink]++
+	if cfg.Sink == "file" && r.requests > 1 {
+		o.Probes["file.sealed-files"] += r.requests - 1
+	}
+	if netSrv != nil {
+		o.Probes["net.faults"] += netSrv.Faults
+	}
 	o.Summary = map[string]any{"sink": cfg.Sink, "events": len(cfg.Events), "requests": r.requests, "split": cfg.Split, "limit_413": cfg.Limit413}
 	_ = broker
 	return o
